@@ -306,6 +306,64 @@ def full_world(rng, wid, modroot="w", stats=None, full_annotations=False, spelli
     return W
 
 
+KEYWORDS = ["implements", "constructor", "immutable", "testonly", "mutable", "packageonly", "ignore"]
+
+
+def near_miss(rng, line, stats=None):
+    """turn an annotation line into something that mentions the keyword without being an annotation"""
+    import re
+    m = re.match(r"^(\s*)//\s*@(\w+)(.*)$", line)
+    if not m or m.group(2) not in KEYWORDS:
+        return [line]
+    ind, kw, rest = m.group(1), m.group(2), m.group(3)
+    kind = rng.choice(["mid-sentence", "capitalised", "upper", "longer-word", "block-comment", "split", "prefixed-word", "commented-out", "quoted"])
+    if stats is not None:
+        stats.setdefault("near_miss", {})
+        stats["near_miss"][kind] = stats["near_miss"].get(kind, 0) + 1
+    out = {
+        "mid-sentence": ind + "// see the @" + kw + rest + " note",
+        "capitalised": ind + "// @" + kw.capitalize() + rest,
+        "upper": ind + "// @" + kw.upper() + rest,
+        "longer-word": ind + "// @" + kw + "s" + rest,
+        "block-comment": ind + "/* @" + kw + rest + " */",
+        "split": ind + "// @ " + kw + rest,
+        "prefixed-word": ind + "// x@" + kw + rest if False else ind + "// not@" + kw + rest,
+        "commented-out": ind + "// TODO: re-enable: // @" + kw + rest,
+        "quoted": ind + "// the line \"// @" + kw + rest + "\" used to be here",
+    }[kind]
+    return [out]
+
+
+def nearmiss_world(rng, wid, modroot="w", stats=None):
+    """a fully annotated world in which every annotation is replaced by a near-miss or moved to an inert placement"""
+    W = full_world(rng, wid, modroot, stats=stats, full_annotations=True, with_impl=True)
+    for pk in W.pkgs.values():
+        for f in pk["files"].values():
+            for dec in f["decls"]:
+                newdoc = []
+                trailing = []
+                for l in dec.doc:
+                    if "@" in l and rng.random() < 0.25:
+                        # inert placement: a trailing comment on the declaration's first line, or a detached comment
+                        if rng.random() < 0.5 and not dec.lines[0].rstrip().endswith("{"):
+                            trailing.append(l.strip())
+                        else:
+                            newdoc = [l, ""] + newdoc
+                        if stats is not None:
+                            stats.setdefault("near_miss", {})
+                            stats["near_miss"]["inert-placement"] = stats["near_miss"].get("inert-placement", 0) + 1
+                    else:
+                        newdoc += near_miss(rng, l, stats)
+                dec.doc = newdoc
+                if trailing:
+                    dec.lines = [dec.lines[0] + " " + trailing[0]] + dec.lines[1:]
+                dec.lines = [x for l in dec.lines for x in (near_miss(rng, l, stats) if l.strip().startswith("//") else [l])]
+    # annotations on local declarations
+    W.add("u", sorted(W.pkgs["u"]["files"])[0], Decl("localAnnotated", ["func localAnnotated() {", "\t// @immutable", "\t// @constructor nope", "\ttype lt struct{ F int }",
+                                                                       "\tv := lt{}", "\tv.F = 1", "\t_ = v", "}"]))
+    return W
+
+
 def c14_world(rng, wid, modroot="w", stats=None):
     """a world whose excluded files (by path entry, by directory, _test.go in-package and external) carry annotations,
     @ignore comments and violations that WOULD matter if they were read"""
